@@ -478,7 +478,8 @@ func (p *proxyConn) write(res *http.Response, tunnel bool) error {
 	}
 	// Support CONNECT over HTTP/1.0, and tunnels that are established while shutting down.
 	// If connect is successful, the connection should not be closed.
-	if req.Method == http.MethodConnect && res.StatusCode/100 == 2 {
+	// The same holds for a protocol upgrade: the tunnel follows the 101 response.
+	if req.Method == http.MethodConnect && res.StatusCode/100 == 2 || tunnel {
 		res.Close = false
 	}
 
